@@ -49,7 +49,9 @@ CLAIMED = {
               "unit value at equal couplings, and the Taylor coefficients a1^j, j < n, of d ln ker/da1 * a1 beta(a1) - gamma_m(a1) vanish identically; the logarithms of the mass decoupling across a matching scale are those required by RG invariance (residual of d ln m^(nf+1)/dt + gamma_m^(nf+1)(a') zero through O(a^3) identically in nf and L, the a^3 L^0 term to the printed digits); ker_dispatcher hands the couplings at "
               "xif2 * scale in the requested patch to the kernel of the coupling method. BOUNDED part (deal run-time contracts, never counted as proved): compute() returns sorted masses that are "
               "fixed points m(m) = m in the patch adjoining the threshold on the side of the coupling reference over 48 seeded draws (reference nf 3-6, orders 1-4, exact / expanded, ratios, xif) and "
-              "refuses 12 inconsistent inputs with ValueError. One defect repaired by a fix commit (NumPy >= 2: TypeError, no mass could be solved)."),
+              "refuses 12 inconsistent inputs with ValueError; 18 crossings re-checked with an independent bookkeeping of the mass path. evolve() itself is executed on ghost couplings (orders 2-4, up/down, "
+              "one to three crossings, the three calling conventions): the mass path changes patch at m_h^2 x ratio and m^2 = m2_ref prod ker^2 prod zeta^2. Two defects repaired by fix commits (NumPy >= 2 TypeError; "
+              "ratios of the coupling applied twice to the mass thresholds); one known finding F29 (m^2 multiplied by zeta instead of zeta^2)."),
         note=COMMON_NOTE + "Not covered: the L-independent decoupling constants (literature values); convergence of fsolve / quad (observation: solve() ignores fsolve's convergence flag). The bounded part is listed under evidence.coverage.bounded_parts.",
         technique="contract-based deductive verification (symbolic execution + exact normal form) for the kernel; bounded stand-in (deal run-time contracts) for the fixed-point clause",
         design_ref="DESIGN.md section 2, C18",
